@@ -382,6 +382,8 @@ func genC15(ctx *Ctx) {
 	ctorOnly := g.ctorOnlyMethods(fnames)
 
 	g.emit(fnames, roles, ctorOnly, entries)
+	// Reader side: writes to objects shared between concurrent searches (c15shared.go)
+	ctx.WriteLean("C15Shared", genC15Shared(ctx))
 }
 
 func c15IsTarget(n string) bool {
